@@ -11,6 +11,51 @@ from tools.translate import core
 SOURCES = ["src/ampform/kinematics/phasespace.py"]
 
 
+# --- calling conventions -------------------------------------------------------------------
+# The four public objects are callable positionally, by keywords (in any order) and mixed. The
+# @unevaluated classes get their `.args` from the decorator's constructor glue
+# (`_extract_field_values`), and `evaluate()` unpacks `.args` BY POSITION, so the value of a
+# keyword-constructed Kibble depends on that glue. Every convention below is therefore (a) part
+# of the regenerated Lean definitions (`<Name><Convention>`, proved equal to the positional
+# definition in Props/C20.lean) and (b) exercised by the oracle with random permutations.
+PARAMS = {
+    "Kallen": ["x", "y", "z"],
+    "Kibble": ["sigma1", "sigma2", "sigma3", "m0", "m1", "m2", "m3"],
+    "thirdMandelstam": ["sigma1", "sigma2", "m0", "m1", "m2", "m3"],
+    "isWithinPhasespace": ["sigma1", "sigma2", "m0", "m1", "m2", "m3", "outside_value"],
+}
+BASES = tuple(PARAMS)
+
+
+def public_objects():
+    from ampform.kinematics import phasespace as ps
+
+    return {"Kallen": ps.Kallen, "Kibble": ps.Kibble, "thirdMandelstam": ps.compute_third_mandelstam,
+            "isWithinPhasespace": ps.is_within_phasespace}
+
+
+def fixed_conventions(params):
+    """Deterministic conventions that get a regenerated Lean definition: label -> (n_positional, keyword order)."""
+    n = len(params)
+    half = n // 2
+    return {
+        "KwDecl": (0, list(params)),
+        "KwRev": (0, list(reversed(params))),
+        "KwRot": (0, list(params[half:]) + list(params[:half])),  # e.g. masses first, then the sigmas
+        "Mixed": (half, list(reversed(params[half:]))),
+    }
+
+
+def call_with(fn, params, values, n_pos, kw_order):
+    """Call `fn` with the first n_pos values positionally and the rest as keywords written in kw_order."""
+    by_name = dict(zip(params, values))
+    return fn(*values[:n_pos], **{k: by_name[k] for k in kw_order})
+
+
+def base_of(name):
+    return next(b for b in sorted(BASES, key=len, reverse=True) if name.startswith(b))
+
+
 def build_definitions():
     import sympy as sp
 
@@ -39,10 +84,30 @@ def build_definitions():
         "thirdMandelstam": (ps.compute_third_mandelstam(s1, s2, m0, m1, m2, m3), [s1, s2, m0, m1, m2, m3]),
         "isWithinPhasespace": (ps.is_within_phasespace(s1, s2, m0, m1, m2, m3, outside_value=ov), [s1, s2, m0, m1, m2, m3, ov]),
     }
+    # the same four objects reached through the other calling conventions
+    objs = public_objects()
+    syms = {"Kallen": [x, y, z], "Kibble": [s1, s2, s3, m0, m1, m2, m3],
+            "thirdMandelstam": [s1, s2, m0, m1, m2, m3], "isWithinPhasespace": [s1, s2, m0, m1, m2, m3, ov]}
+    for base in BASES:
+        params = PARAMS[base]
+        lean_params = [str(a) for a in syms[base]]
+        is_class = isinstance(objs[base], type)
+        for label, (n_pos, kw_order) in fixed_conventions(params).items():
+            obj = call_with(objs[base], params, syms[base], n_pos, kw_order)
+            how = f"{base}({', '.join(['·'] * n_pos + [k + '=·' for k in kw_order])})"
+            defs.append(core.Definition(base + label, lean_params, tr(obj.evaluate() if is_class else obj),
+                                        doc=f"`{how}`" + (".evaluate()" if is_class else "")))
+            reals[base + label] = (obj, syms[base])
+            if is_class and label in ("KwRev", "Mixed"):
+                # the unevaluated NODE itself: its `.args` (what every consumer of the tree sees)
+                defs.append(core.Definition(base + "Node" + label, lean_params, tr(obj),
+                                            doc=f"the unevaluated node `{how}` (its `.args` order)"))
+                reals[base + "Node" + label] = (obj, syms[base])
     return defs, reals, facts
 
 
 def points(name, nargs, rng, n):
+    name = base_of(name)
     pts = []
     for _ in range(n):
         if name == "Kallen":
@@ -60,6 +125,79 @@ def points(name, nargs, rng, n):
     return pts
 
 
+def convention_oracle(chk: common.Check, rng, n_random: int):
+    """Every public object called through every calling convention must be THE SAME object as the
+    positional call: `==`, `.args` (for the classes: the field-declaration order), named attributes,
+    hash, srepr, LaTeX, doit(). Symbols and exact numbers; fixed conventions + random permutations
+    and random positional/keyword splits; `outside_value` omitted / positional / keyword."""
+    import sympy as sp
+
+    R = sp.Rational
+    bad = []
+    objs = public_objects()
+    sym = {p: sp.Symbol(p, real=True) for b in BASES for p in PARAMS[b]}
+    for base in BASES:
+        fn, params = objs[base], PARAMS[base]
+        is_class = isinstance(fn, type)
+        n = len(params)
+        convs = [(lab, *c) for lab, c in fixed_conventions(params).items()]
+        for k in range(n_random):
+            n_pos = rng.randrange(0, n) if k % 2 else 0
+            order = list(params[n_pos:]); rng.shuffle(order)
+            convs.append((f"random{k}", n_pos, order))
+        for k in range(1, n):  # every split point, keywords in declaration order and reversed
+            convs.append((f"split{k}", k, list(params[k:])))
+            convs.append((f"split{k}rev", k, list(reversed(params[k:]))))
+        value_sets = [[sym[p] for p in params],
+                      [R(rng.randint(1, 40), rng.randint(1, 9)) for _ in params],
+                      [sym[p] ** 2 + R(i + 1, 3) for i, p in enumerate(params)]]
+        if base == "isWithinPhasespace":
+            value_sets.append([*value_sets[0][:-1], None])  # outside_value left at its default
+        for vi, values in enumerate(value_sets):
+            omitted = values[-1] is None
+            vals = values[:-1] if omitted else values
+            prm = params[:-1] if omitted else params
+            ref = fn(*vals)
+            for lab, n_pos, order in convs:
+                order = [k for k in order if k in prm]
+                n_pos = min(n_pos, len(prm))
+                chk.count(("convention", base, vi, lab, n_pos, tuple(order)))
+                try:
+                    obj = call_with(fn, prm, vals, n_pos, order)
+                except Exception as e:  # noqa: BLE001
+                    bad.append({"what": f"{base}: calling convention rejected", "positional": n_pos, "keywords": order, "error": repr(e)[:300]})
+                    continue
+                diffs = []
+                if type(obj) is not type(ref):
+                    diffs.append("type")
+                if obj.args != ref.args:
+                    diffs.append(".args")
+                if not (obj == ref) or hash(obj) != hash(ref):
+                    diffs.append("==/hash")
+                if sp.srepr(obj) != sp.srepr(ref):
+                    diffs.append("srepr")
+                if is_class:
+                    if tuple(obj.args) != tuple(sp.sympify(v) for v in vals):
+                        diffs.append(".args is not the field-declaration order")
+                    for name, v in zip(prm, vals):
+                        if getattr(obj, name) != v:
+                            diffs.append(f"attribute {name}")
+                    if sp.latex(obj) != sp.latex(ref):
+                        diffs.append("latex")
+                    if obj.func(*obj.args) != ref:
+                        diffs.append("rebuild from .args")
+                d_obj, d_ref = obj.doit(), ref.doit()
+                if d_obj != d_ref:
+                    diffs.append("doit()")
+                if diffs:
+                    bad.append({"what": f"{base}: result depends on the calling convention ({', '.join(diffs[:3])})",
+                                "positional_args": n_pos, "keyword_order": order, "values": [str(v) for v in vals],
+                                "keyword_call": {"args": [str(a) for a in obj.args], "doit": str(d_obj)[:200]},
+                                "positional_call": {"args": [str(a) for a in ref.args], "doit": str(d_ref)[:200]}})
+                    break
+    return bad
+
+
 def search(chk: common.Check, rng, n_events: int):
     """Independent oracle: the statement of C20 evaluated on the real code.
 
@@ -74,9 +212,26 @@ def search(chk: common.Check, rng, n_events: int):
     s1, s2, s3, m0, m1, m2, m3, ov = sp.symbols("sigma1 sigma2 sigma3 m0 m1 m2 m3 ov", real=True)
     f_third = sp.lambdify([s1, s2, m0, m1, m2, m3], ps.compute_third_mandelstam(s1, s2, m0, m1, m2, m3), "numpy")
     f_kib = sp.lambdify([s1, s2, s3, m0, m1, m2, m3], ps.Kibble(s1, s2, s3, m0, m1, m2, m3).doit(), "numpy")
+    # the same statement through other calling conventions (a user who writes keywords must get the
+    # same physics): Kibble / third Mandelstam / indicator built by keywords in a random order
+    bad = []
+    objs = public_objects()
+    kw_variants = []
+    for k in range(4):
+        row = {}
+        for base, vals in (("Kibble", [s1, s2, s3, m0, m1, m2, m3]), ("thirdMandelstam", [s1, s2, m0, m1, m2, m3]),
+                           ("isWithinPhasespace", [s1, s2, m0, m1, m2, m3, ov])):
+            params = PARAMS[base]
+            n_pos = 0 if k < 2 else rng.randrange(0, len(params))
+            order = list(params[n_pos:]); rng.shuffle(order)
+            try:
+                row[base] = (sp.lambdify(vals, call_with(objs[base], params, vals, n_pos, order).doit(), "numpy"), n_pos, order)
+            except Exception as e:  # noqa: BLE001
+                bad.append({"what": f"{base}: calling convention rejected", "positional": n_pos, "keywords": order, "error": repr(e)[:300]})
+        kw_variants.append(row)
     f_ind = sp.lambdify([s1, s2, m0, m1, m2, m3, ov], ps.is_within_phasespace(s1, s2, m0, m1, m2, m3, outside_value=ov).doit(), "numpy")
     f_kal = sp.lambdify([s1, s2, s3], ps.Kallen(s1, s2, s3).doit(), "numpy")
-    bad = []
+    bad += convention_oracle(chk, rng, 6 if n_events < 1000 else 40)
     for i in range(n_events):
         masses = [rng.choice([0.0, rng.uniform(0.01, 2.0)]) for _ in range(3)]
         M0 = sum(masses) + rng.uniform(0.05, 4.0)
@@ -122,6 +277,18 @@ def search(chk: common.Check, rng, n_events: int):
         kib_c = float(f_kib(S1, S2, third, M0, *masses))
         if kib_c < -tol_k and ind != 1.0:
             bad.append({"what": "indicator != 1 on a physical event", "masses": [M0, *masses], "sigma": [S1, S2, S3], "indicator": ind})
+        row = kw_variants[i % len(kw_variants)]
+        for base, val, tol, call_args in (("Kibble", kib, tol_k, (S1, S2, S3, M0, *masses)),
+                                          ("thirdMandelstam", third, 1e-9 * scale, (S1, S2, M0, *masses)),
+                                          ("isWithinPhasespace", ind, 0.0, (S1, S2, M0, *masses, -1.0))):
+            if base not in row:
+                continue
+            f_kw, n_pos, order = row[base]
+            v_kw = float(f_kw(*call_args))
+            if not abs(v_kw - val) <= tol:
+                bad.append({"what": f"{base} on a physical event: keyword-constructed value differs from the positional one",
+                            "positional_args": n_pos, "keyword_order": order, "masses": [M0, *masses], "sigma": [S1, S2, S3],
+                            "positional_value": val, "keyword_value": v_kw})
     # bounding-box grid vs PDG limits
     for i in range(n_events):
         masses = [rng.choice([0.0, rng.uniform(0.01, 2.0)]) for _ in range(3)]
